@@ -163,7 +163,9 @@ def alpha_corpus(props: List[str]) -> List[Dict[str, Any]]:
             if key2 not in gen_cache:
                 try:
                     text = base.src(rel)
-                    gen_cache[key2] = (alpha.py_rewrites(rel, text, 'all') if rel.endswith('.py') else alpha.c_rewrites(rel, text, 'flip') if rel.endswith('.c') else [])
+                    gen_cache[key2] = (alpha.py_rewrites(rel, text, 'all') if rel.endswith('.py') else
+                                       [(q_ + ' (comparisons)', t_) for q_, t_ in alpha.c_rewrites(rel, text, 'flip')] +
+                                       [(q_ + ' (operand order)', t_) for q_, t_ in alpha.c_rewrites(rel, text, 'commute')] if rel.endswith('.c') else [])
                 except Exception:      # noqa: BLE001
                     gen_cache[key2] = []
             for q, new in gen_cache[key2]:
